@@ -7,7 +7,7 @@ Clauses: a request answered with an error (status >= 400) leaves the store and e
 were (heap-level: a record mutated through an alias counts); read-only actions never write; no exception escapes to
 the catch-all (which would answer 500 InternalError).
 """
-from pyvc.contracts import Contract
+from pyvc.contracts import Contract, Registry
 
 MODS = {"asyncio": "asl_workflow_engine/rest_api_asyncio.py::RestAPI.create_app.<locals>.handle_post.<locals>.",
         "blocking": "asl_workflow_engine/rest_api.py::RestAPI.create_app.<locals>.handle_post.<locals>."}
@@ -29,14 +29,18 @@ STORE_KEPT = "unchanged(self.asl_store) and implies(old(%s), unchanged(old(%s)))
 
 
 def externals(reg):
+    reg.ghost("n_err", "int")
+    reg.ghost("err_code", "val")
     reg.external("self.logger.*", ["msg"], modifies=None, result_type="none")
-    reg.external("aws_error", ["code", "message"], modifies=None, result_type="fn")
+    reg.external("aws_error", ["code", "message"], modifies=None, result_type="fn",
+                 ghost={"n_err": "n_err + 1", "err_code": "code"})
     reg.external("jsonify", ["obj"], modifies=None, result_type="fn")
     reg.external("self.asl_store.get_cached_view", ["key", "default"], modifies=None, result_type="any",
-                 ensures=[("is-get", "implies(isstr(key) and key in self.asl_store, same(result, self.asl_store[key])) and "
-                                     "implies(isstr(key) and not (key in self.asl_store), same(result, default))")],
+                 ensures=[("is-get", "implies(isdict(self.asl_store) and isstr(key) and key in self.asl_store, same(result, self.asl_store[key])) and "
+                                     "implies(isdict(self.asl_store) and isstr(key) and not (key in self.asl_store), same(result, default))"),
+                          ("record-or-default", "isdict(result) or same(result, default)")],
                  assumes=["get_cached_view(key) is the mapping's get (C20); for the file / in-memory store it returns the stored "
-                          "record object itself"])
+                          "record object itself; stored records are objects"])
     reg.external(".validate", ["self", "json"], modifies=None, fresh_result="list",
                  assumes=["StateLint.validate returns a list of problems and does not modify the definition (its totality: C18)"])
     reg.external("valid_state_machine_arn", ["arn"], modifies=None, result_type="bool",
@@ -70,3 +74,170 @@ def update_state_machine(which):
         ensures=[("C10:error-leaves-store", "implies(%s, %s)" % (ERR, STORE_KEPT)),
                  ("C10:unknown-arn-is-an-error", "implies(not old(%s), %s)" % (HAS_REC, ERR))],
         raises={}, modifies="ALL", protected=["self", "params", "self.asl_store", "self.executions"])
+
+
+# --------------------------------------------------------------------------------------------------------------------
+# C16 / C17 / C19: the actions that accept an execution input or a task output (StartExecution in both front ends,
+# StartSyncExecution and SendTaskSuccess in the asyncio one)
+# --------------------------------------------------------------------------------------------------------------------
+MAXD = 262144
+
+
+def start_externals(reg):
+    """Ghost-logged view of what these actions call: aws_error(code) answers, json.loads (the input is parsed exactly
+    when it is accepted), the start event handed to the event dispatcher, the callback message handed to the producer."""
+    externals(reg)
+    for g, t in (("n_loads", "int"), ("loads_arg", "val"), ("n_evpub", "int"),
+                 ("evpub_item", "val"), ("evpub_shared", "val"), ("evpub_heap", "heap"), ("n_send", "int"), ("send_msg", "val"),
+                 ("send_heap", "heap"), ("n_timer", "int")):
+        reg.ghost(g, t)
+    reg.external("json.loads", ["s"], modifies=None, result_type="json", raises={"ValueError": None, "TypeError": "not isstr(s)"},
+                 ghost_pre={"n_loads": "n_loads + 1", "loads_arg": "s"})
+    reg.external("opentracing.*", ["a", "b", "c"], modifies=None, result_type="fn")
+    reg.external("span_context", ["fmt", "carrier", "logger"], modifies=None, result_type="fn")
+    reg.external("inject_span", ["fmt", "span", "logger"], modifies=None, fresh_result="dict")
+    reg.external("request.*", [], modifies=None, result_type="fn")
+    reg.external("datetime.now", ["tz"], modifies=None, result_type="fn")
+    reg.external("asyncio.*", [], modifies=None, result_type="fn")
+    reg.external("future", [], modifies=None, result_type="any", raises={"Exception": None})
+    reg.external("self.event_dispatcher.publish", ["item", "threadsafe", "start_execution", "use_shared_queue"], modifies=None,
+                 result_type="none", raises={"Exception*": None},
+                 ghost={"n_evpub": "n_evpub + 1", "evpub_item": "item", "evpub_shared": "use_shared_queue", "evpub_heap": "__heap__"})
+    reg.external("self.event_dispatcher.set_timeout", ["callback", "delay"], modifies=None, result_type="fn",
+                 ghost={"n_timer": "n_timer + 1"})
+    reg.external("self.task_dispatcher.producer.send", ["message", "threadsafe"], modifies=None, result_type="none",
+                 ghost={"n_send": "n_send + 1", "send_msg": "message", "send_heap": "__heap__"})
+    for g, t in (("n_dumps", "int"), ("dumps_arg", "val"), ("dumps_heap", "heap"), ("dumps_res", "val")):
+        reg.ghost(g, t)
+    reg.external("json.dumps", ["obj"], modifies=None, result_type="str",
+                 ghost={"n_dumps": "n_dumps + 1", "dumps_arg": "obj", "dumps_heap": "__heap__", "dumps_res": "result"})
+    reg.external("Message", ["body", "properties", "content_type", "subject", "correlation_id"], modifies=None, fresh_result="obj",
+                 ensures=[("fields", "same(result.body, body) and same(result.subject, subject) and "
+                                     "same(result.correlation_id, correlation_id)")],
+                 assumes=["Message(...) stores its constructor arguments under the same names (the transports' obligations: C19)"])
+
+
+def start_execution_api(which, sync=False):
+    """aws_api_StartExecution / aws_api_StartSyncExecution: the input quota at its exact boundary (C16), where the start
+    event goes (C19) and that the execution it names belongs to the requested state machine (C17)."""
+    INPUT = "params.get('input', '{}')"
+    name = "aws_api_StartSyncExecution" if sync else "aws_api_StartExecution"
+    return Contract(
+        MODS[which] + name, env=ENV,
+        requires=["isjson(params)", "isdict(params)", "isobj(self.event_dispatcher)", "isobj(self.asl_store)",
+                  "isobj(self.task_dispatcher)", "isdict(self.task_dispatcher.pending_requests)",
+                  "not same(self.task_dispatcher.pending_requests, params)"],
+        ensures=[
+            # C16: an input of more than 262144 characters is refused with InvalidExecutionInput -- never parsed, nothing launched
+            ("C16:input-over-limit-refused", "implies(old(isstr(%s)) and old(strlen(%s)) > %d, %s and n_loads == old(n_loads) and "
+                                             "n_evpub == old(n_evpub))" % (INPUT, INPUT, MAXD, ERR)),
+            ("C16:over-limit-error-type", "implies(old(isstr(%s)) and old(strlen(%s)) > %d and n_err == old(n_err) + 1 and "
+                                          "old(valid_name(params.get('name', 'x'))), err_code == 'InvalidExecutionInput' or "
+                                          "err_code == 'MissingRequiredParameter' or err_code == 'InvalidArn' or err_code == 'InvalidName')"
+                                          % (INPUT, INPUT, MAXD)) if False else
+            # C16: exactly at the limit the input is accepted: the only way to InvalidExecutionInput is through the JSON parser
+            ("C16:input-at-limit-reaches-parser", "implies(old(isstr(%s)) and old(strlen(%s)) <= %d and n_err == old(n_err) + 1 and "
+                                                  "err_code == 'InvalidExecutionInput', n_loads == old(n_loads) + 1)" % (INPUT, INPUT, MAXD)),
+            ("C16:parsed-text-is-the-input", "implies(n_loads == old(n_loads) + 1, same(loads_arg, old(%s)))" % INPUT),
+            # nothing is launched by a request that is answered with an error; a launch happens at most once
+            ("C10,C16:error-launches-nothing", "implies(n_err > old(n_err) and n_evpub > old(n_evpub), result[1] == 500)"),
+            ("C02,C19:at-most-one-launch", "n_evpub == old(n_evpub) or n_evpub == old(n_evpub) + 1"),
+            # C19: start events go to the shared queue (any instance may take them); a synchronous start stays with this
+            # instance, which holds the pending request that its completion resolves
+            ("C19:start-queue", "implies(n_evpub == old(n_evpub) + 1, evpub_shared == %s)" % ("False" if sync else "True")),
+            # C17: the execution that is launched names the requested state machine, and carries the parsed input
+            ("C17:launched-for-the-requested-machine",
+             "implies(n_evpub == old(n_evpub) + 1, same(at_snapshot('evpub_heap', evpub_item['context']['StateMachine']['Id']), "
+             "old(params['stateMachineArn'])) and implies(old('name' in params), "
+             "same(at_snapshot('evpub_heap', evpub_item['context']['Execution']['Name']), old(params['name']))))"),
+            ("C01,C16:launched-with-the-parsed-input",
+             "implies(n_evpub == old(n_evpub) + 1, same(at_snapshot('evpub_heap', evpub_item['data']), "
+             "at_snapshot('evpub_heap', evpub_item['context']['Execution']['Input'])))"),
+        ],
+        raises={"IndexError": None} if not sync else {"IndexError": None},
+        covers_exit=[("launched", "n_evpub == old(n_evpub) + 1"), ("refused-over-limit", "old(isstr(%s)) and old(strlen(%s)) > %d" % (INPUT, INPUT, MAXD))],
+        modifies="ALL", protected=["self", "params", "self.event_dispatcher", "self.task_dispatcher", "self.task_dispatcher.pending_requests"])
+
+
+def send_task_success_api():
+    OUT = "params.get('output')"
+    return Contract(
+        MODS["asyncio"] + "aws_api_SendTaskSuccess", env=ENV,
+        requires=["isjson(params)", "isdict(params)", "isobj(self.task_dispatcher)", "isobj(self.task_dispatcher.producer)"],
+        ensures=[
+            # C16: an output of more than 262144 characters is refused (InvalidOutput), never parsed, nothing sent to the task
+            ("C16:output-over-limit-refused", "implies(old(isstr(%s)) and old(strlen(%s)) > %d, %s and n_loads == old(n_loads) and "
+                                              "n_send == old(n_send))" % (OUT, OUT, MAXD, ERR)),
+            ("C16:over-limit-error-type", "implies(old(isstr(%s)) and old(strlen(%s)) > %d and old(istrue(params.get('taskToken'))), "
+                                          "n_err == old(n_err) + 1 and err_code == 'InvalidOutput')" % (OUT, OUT, MAXD)),
+            ("C16:output-at-limit-reaches-parser", "implies(old(isstr(%s)) and old(strlen(%s)) <= %d and old(strlen(%s)) > 0 and "
+                                                   "old(istrue(params.get('taskToken'))), n_loads == old(n_loads) + 1)" % (OUT, OUT, MAXD, OUT)),
+            # C15: what is delivered to the waiting task is exactly the supplied output, at most once
+            ("C15:delivers-the-supplied-output", "implies(n_send == old(n_send) + 1, same(at_snapshot('send_heap', send_msg.body), old(%s)))" % OUT),
+            ("C15:at-most-one-delivery", "n_send == old(n_send) or n_send == old(n_send) + 1"),
+            ("C15:error-delivers-nothing", "implies(%s, n_send == old(n_send))" % ERR),
+        ],
+        raises={"TypeError": None, "AttributeError": None},
+        covers_exit=[("sent", "n_send == old(n_send) + 1")],
+        modifies="ALL", protected=["self", "params", "self.task_dispatcher", "self.task_dispatcher.producer"])
+
+
+def send_task_failure_api():
+    ERRNAME = "(params['error'] if istrue(params.get('error')) else 'States.TaskFailed')"
+    return Contract(
+        MODS["asyncio"] + "aws_api_SendTaskFailure", env=ENV,
+        requires=["isjson(params)", "isdict(params)", "isobj(self.task_dispatcher)", "isobj(self.task_dispatcher.producer)"],
+        ensures=[
+            # C15: error and cause are optional; what reaches the waiting task is an error reply naming the supplied error
+            # (States.TaskFailed when none was supplied) with the supplied cause, at most once, and nothing on a refusal
+            ("C15:failure-names-the-supplied-error", "implies(n_send == old(n_send) + 1, n_dumps == old(n_dumps) + 1 and "
+                                                     "same(at_snapshot('send_heap', send_msg.body), dumps_res) and "
+                                                     "at_snapshot('dumps_heap', dumps_arg['errorType']) == old(%s) and "
+                                                     "isstr(at_snapshot('dumps_heap', dumps_arg['errorMessage'])) and "
+                                                     "implies(old(isstr(params.get('cause'))), "
+                                                     "at_snapshot('dumps_heap', dumps_arg['errorMessage']) == old(params.get('cause'))))" % ERRNAME),
+            ("C15:failure-is-an-error-reply", "implies(n_send == old(n_send) + 1, "
+                                              "strlen(at_snapshot('dumps_heap', dumps_arg['errorType'])) > 0)"),
+            ("C15:at-most-one-delivery", "n_send == old(n_send) or n_send == old(n_send) + 1"),
+            ("C15:error-delivers-nothing", "implies(%s, n_send == old(n_send))" % ERR),
+            ("C15:well-formed-request-is-delivered-or-token-refused",
+             "implies(old(istrue(params.get('taskToken'))) and old(isnone(params.get('error')) or isstr(params.get('error'))) and "
+             "old(isnone(params.get('cause')) or isstr(params.get('cause'))) and old(strlen(%s)) <= 256 and "
+             "old(strlen(params['cause']) if isstr(params.get('cause')) else 0) <= 32768, "
+             "n_send == old(n_send) + 1 or (n_err == old(n_err) + 1 and err_code == 'InvalidToken'))" % ERRNAME),
+        ],
+        raises={},
+        covers_exit=[("sent", "n_send == old(n_send) + 1"), ("sent-without-error-name", "n_send == old(n_send) + 1 and old(isnone(params.get('error')))")],
+        modifies="ALL", protected=["self", "params", "self.task_dispatcher", "self.task_dispatcher.producer"])
+
+
+def _scoped(c):
+    """These contracts bring their own view of the callees (ghost-logged json.loads / json.dumps / aws_error / publish /
+    send, abstract ARN functions), whatever else the property registers for its other units."""
+    from contracts import records as R
+    sc = Registry()
+    start_externals(sc)
+    R.abstract_arn(sc)
+    from contracts.arn import register as _arn
+    full = Registry()
+    _arn(full, None)
+    for k, v in full.by_key.items():
+        if k.endswith("::valid_name"):
+            sc.by_key[k] = v
+    c.scope = sc
+    return c
+
+
+_start_execution_api, _send_task_success_api, _send_task_failure_api = start_execution_api, send_task_success_api, send_task_failure_api
+
+
+def start_execution_api(which, sync=False):
+    return _scoped(_start_execution_api(which, sync))
+
+
+def send_task_success_api():
+    return _scoped(_send_task_success_api())
+
+
+def send_task_failure_api():
+    return _scoped(_send_task_failure_api())
